@@ -67,6 +67,28 @@ pub fn run(seed: u64, n: usize, out: &str) -> Vec<String> {
                     }
                     let s = sweep(&dev, case.size, 1 << *bsb).await?;
                     v.push(format!("sweep {}", s.replace(' ', ",")));
+                    // multi-cluster reads that start anywhere (also inside a range without L2
+                    // table) and run across L2 table boundaries
+                    let bs = 1u64 << *bsb;
+                    let vs = case.size / bs * bs;
+                    let l2_span = (cs / 8) * cs;
+                    let mut rr = Rng::derive(seed, 93, (id * 8 + pi) as u64);
+                    for _ in 0..24 {
+                        let start = match rr.below(3) {
+                            // a little before an L2 table boundary
+                            0 => (rr.range(1, (vs / l2_span).max(1)) * l2_span).saturating_sub(cs * rr.range(1, 6)),
+                            _ => rr.below(vs / bs) * bs,
+                        } / bs * bs;
+                        let start = start.min(vs.saturating_sub(bs));
+                        let len = (cs * rr.range(2, 12) + bs * rr.below(cs / bs)).min(vs - start) / bs * bs;
+                        if len == 0 {
+                            continue;
+                        }
+                        let mut buf = iobuf(len as usize, POISON_BYTE);
+                        let n = dev.read_at(&mut buf, start).await?;
+                        let toks: Vec<Option<u64>> = buf[..n.min(len as usize) / SECTOR * SECTOR].chunks(SECTOR).map(decode_sector).collect();
+                        v.push(format!("mread {} {} {}", start, n, rle_tokens(&toks).replace(' ', ",")));
+                    }
                     Ok::<Vec<String>, qcow2_rs::error::Qcow2Error>(v)
                 })
             }));
